@@ -53,9 +53,10 @@ def events(ctx, roles, T, f):
                 exp = fold_cmd_list(T, f, n, cs.bind(roles.connect_reader).get(roles.connect_reader.call_params[0]))
                 binds = {}
                 if n.kind == "stmt" and isinstance(n.ast, ast.Assign) and unawait(n.ast.value) is c and len(n.ast.targets) == 1 and isinstance(n.ast.targets[0], (ast.Tuple, ast.List)):
+                    names = [varkey(t) for t in n.ast.targets[0].elts]
                     for i, t in enumerate(n.ast.targets[0].elts):
                         k = varkey(t)
-                        if k and k != "_":
+                        if k and k != "_" and names.count(k) == 1:      # a name bound twice in one unpacking is a throw-away
                             binds[i] = k
                 out.append(Ev("READ", n, c, expected=exp, binds=binds, term=T.term(f, n, c)))
             elif isinstance(c.func, ast.Attribute) and c.func.attr == "Sign":
